@@ -156,7 +156,8 @@ class C12(Prop):
             chans.append({"out": g.choice(["path", "stream", "stringio"]), "codec": codec,
                           "in": {"channel": g.choice(["path", "Path", "stream", "stringio", "string"]), "codec": codec, "explicit": True,
                                  "newline": g.choice(["\n", "\n", "\r\n"])}})
-        return {"src": src, "cfgs": [a, b], "chans": chans, "rkw": g.choice([{}, {}, {"engine": "normal"}, {"mnemonic_case": "preserve"}, {"mnemonic_case": "lower"}]),
+        return {"src": src, "cfgs": [a, b], "chans": chans, "rkw": g.choice([{}, {}, {"engine": "normal"}, {"mnemonic_case": "preserve"}, {"mnemonic_case": "lower"}, {"null_policy": "none"},
+                                 {"ignore_header_errors": True}, {"mnemonic_case": "lower", "engine": "normal"}]),
                 "policy": Policy.draw(st.io).to_json()}
 
     def load(self, sc, fs):
